@@ -266,7 +266,16 @@ func (p *Program) acceptLoops() []*AcceptLoop {
 func ruleAcceptLoops(c *Ctx, rid string) {
 	c.rule(rid, "accept loops: (i) between two Accept calls no call reads from, writes to or handshakes the accepted socket (that work belongs to the per-connection goroutine); (ii) the loop is left only on the error of Accept itself; (iii) every accepted socket is, on every path to the next Accept or to a return, handed to a go statement or closed")
 	loops := c.P.acceptLoops()
-	c.count("accept-loops", len(loops))
+	// one instance per listener entry: a loop shared by several listeners counts once per caller
+	ninst := 0
+	for _, al := range loops {
+		k := len(c.P.staticCallSites(al.Fn))
+		if k < 1 {
+			k = 1
+		}
+		ninst += k
+	}
+	c.count("accept-loops", ninst)
 	c.floor("accept-loops", 2)
 	for _, al := range loops {
 		c.analysed(al.Fn)
@@ -743,7 +752,16 @@ func ruleReplyBufferLocal(c *Ctx, rid string) {
 			continue
 		}
 		key := name[0] + "." + name[1] + "/buffer"
-		buf := outputBuffer(fn)
+		m := serializerModel(c.P, fn, readTypeTables(c.P))
+		own := m.Mode == "buffer"
+		if m.Mode == "slice" {
+			own = true
+			for _, pth := range m.Paths {
+				if pth.ErrNil != 2 && !pth.AccOK {
+					own = false
+				}
+			}
+		}
 		shared := ""
 		allInstrs(fn, func(ins ssa.Instruction) {
 			if call, ok := ins.(*ssa.Call); ok {
@@ -763,8 +781,8 @@ func ruleReplyBufferLocal(c *Ctx, rid string) {
 		switch {
 		case shared != "":
 			c.bad(rid, key, c.P.pos(fn.Pos()), "the reply is built in shared storage ("+shared+"): the bytes handed to the connection can be overwritten by another connection's reply before they are written")
-		case buf == nil:
-			c.undecided(rid, key, c.P.pos(fn.Pos()), "the output buffer of the serializer is not a local bytes.Buffer: its ownership was not established")
+		case !own:
+			c.undecided(rid, key, c.P.pos(fn.Pos()), "the output of the serializer is neither a local bytes.Buffer nor a []byte appended to from empty within the call: its ownership was not established")
 		default:
 			c.ok(rid, key, c.P.pos(fn.Pos()), "reply built in a buffer allocated by this call")
 		}
